@@ -72,7 +72,8 @@ def values(draw, kind, kw):
         places = draw(st.integers(0, 6))
     choice = draw(st.integers(0, 9))
     if kind == "base":
-        v = draw(st.integers(-(2**40), 2**40) | st.integers(-300, 300) | st.sampled_from([0, 1, -1, 2**31, -(2**31), -(2**31) - 1, 2**32, -(2**32), 255, -255]))
+        v = draw(st.integers(-(2**49), 2**49) | st.integers(-300, 300) | st.sampled_from([0, 1, -1, 2**31, -(2**31), -(2**31) - 1, 2**32, -(2**32), 255, -255])
+                 | st.tuples(st.integers(30, 49), st.sampled_from([-1, 0, 1]), st.sampled_from([-1, 1])).map(lambda t: t[2] * (2 ** t[0] + t[1])))
         if choice == 0:
             return v + draw(st.sampled_from([0.5, 0.25, -0.25, 0.75]))
         if choice == 1:
